@@ -66,7 +66,9 @@ def r1_r2(prog, rep):
     em = prog.module(EQ)
     ei = em.funcs.get("Equilibrium.__init__")
     src = T(em, ei.node)
-    ok = K("closed_wall=self.wall+[self.wall[0]]") in src and K("self.closed_wallarray = numpy.array([(p.R, p.Z) for p in closed_wall])") in src
+    from ..model import inline_temporaries
+    vals = [T(em, inline_temporaries(ei.node, s.value)) for s in walk_own(ei.node) if isinstance(s, ast.Assign) and T(em, s.targets[0]) == "self.closed_wallarray"]
+    ok = vals == [K("numpy.array([(p.R, p.Z) for p in self.wall + [self.wall[0]]])")]
     rep.ob("R2", "the closed wall array is the wall followed by its first point, columns (R, Z)", ok, ei.site(), "", key="wall/closed")
     w = prog.func(MESH, "BoutMesh.writeGridfile")
     src = T(w.module, w.node)
